@@ -236,7 +236,7 @@ PROPS = {
         assumptions=["consistent ring states (the property's quantifier); headers whose geometry fits the slot"],
     ),
     "C04": dict(
-        modules=["Fuota.Props.C04"],
+        modules=["Fuota.Props.C04", "Fuota.Props.C06c"],
         suites=[dict(name="d5w", cfg="matrix", keys=["res", "ops", "bad", "s0", "s1", "s2", "s3", "s4", "s5"])],
         rule="per generated session: power loss before / during (torn: byte prefix and partially programmed byte) "
              "mutating operation k of operation j, for start, fragments (incl. back-substitution), the final mark, and "
